@@ -10,6 +10,7 @@ package rules
 //   S: Store(block)                                         (a block that arrived by a fetch)
 //   N: the sender's RequestBlock now finds exactly the given blocks (Get fetches and stores them)
 //   Q: which blocks are stored (Blockchain.LocalGet)
+//   L: which block is locked (read after processing and after every vote decision in some streams)
 // and records the return values and the lock (read from the unexported fields) after each event.
 // Every run is (1) emitted as a Gallina case that the Coq kernel replays on the model and
 // (2) judged by an independently written Go transcription of the published rules (refXxx below),
@@ -78,7 +79,7 @@ func (f *c04Forest) viewOf(i int) uint64 {
 }
 
 type c04Ev struct {
-	kind byte  // 'V', 'C', 'S', 'N' (the peers now have exactly the blocks in net), 'Q' (read the stored set)
+	kind byte  // 'V', 'C', 'S', 'N' (the peers now have exactly the blocks in net), 'Q' (read the stored set), 'L' (read the lock)
 	net  []int // N
 	blk  int
 	view uint64 // V: the view argument
@@ -98,7 +99,9 @@ func (e c04Ev) aggView(blockView uint64) uint64 {
 // ---------------------------------------------------------------- the code under test
 
 // c04Sender answers RequestBlock from the set of blocks the harness says the peers have.
-type c04Sender struct{ peers map[hotstuff.Hash]*hotstuff.Block }
+type c04Sender struct {
+	peers map[hotstuff.Hash]*hotstuff.Block
+}
 
 func (*c04Sender) NewView(hotstuff.ID, hotstuff.SyncInfo) error { return nil }
 func (*c04Sender) Vote(hotstuff.ID, hotstuff.PartialCert) error { return nil }
@@ -115,12 +118,14 @@ var c04Names = [3]string{"chained", "fast", "simple"}
 var c04Gallina = [3]string{"Chained", "Fast", "Simple"}
 
 type c04Runner struct {
-	rs     int
-	sender *c04Sender
-	chain  *blockchain.Blockchain
-	ch    *ChainedHotStuff
-	fh    *FastHotStuff
-	sh    *SimpleHotStuff
+	rs        int
+	factoryOK bool // rules.New(name) returned the ruleset of that name
+	chainLen  int
+	sender    *c04Sender
+	chain     *blockchain.Blockchain
+	ch        *ChainedHotStuff
+	fh        *FastHotStuff
+	sh        *SimpleHotStuff
 }
 
 func c04NewRunner(rs int) *c04Runner {
@@ -133,16 +138,39 @@ func c04NewRunner(rs int) *c04Runner {
 	chain := blockchain.New(el, c04Logger, sender)
 	cfg := core.NewRuntimeConfig(1, nil, core.WithAggregateQC())
 	r := &c04Runner{rs: rs, chain: chain, sender: sender}
+	// the rulesets are obtained the way the replica obtains them: by name through rules.New
+	// ("" selects the default, chained HotStuff); a wrong mapping is reported by the caller
+	name := [3]string{NameChainedHotStuff, NameFastHotStuff, NameSimpleHotStuff}[rs]
+	c04Made++
+	if rs == 0 && c04Made%2 == 0 {
+		name = ""
+	}
+	made, err := New(c04Logger, cfg, chain, name)
+	r.chainLen = -1
+	if err == nil && made != nil {
+		r.chainLen = made.ChainLength()
+	}
 	switch rs {
 	case 0:
-		r.ch = NewChainedHotStuff(c04Logger, cfg, chain)
+		r.ch, r.factoryOK = made.(*ChainedHotStuff)
+		if !r.factoryOK {
+			r.ch = NewChainedHotStuff(c04Logger, cfg, chain)
+		}
 	case 1:
-		r.fh = NewFastHotStuff(c04Logger, cfg, chain)
+		r.fh, r.factoryOK = made.(*FastHotStuff)
+		if !r.factoryOK {
+			r.fh = NewFastHotStuff(c04Logger, cfg, chain)
+		}
 	default:
-		r.sh = NewSimpleHotStuff(c04Logger, cfg, chain)
+		r.sh, r.factoryOK = made.(*SimpleHotStuff)
+		if !r.factoryOK {
+			r.sh = NewSimpleHotStuff(c04Logger, cfg, chain)
+		}
 	}
 	return r
 }
+
+var c04Made int
 
 func (r *c04Runner) lock() hotstuff.Hash {
 	switch r.rs {
@@ -404,6 +432,13 @@ func c04Execute(v *verifOut, s *verifStream, run c04Run, rs int) {
 			}(),
 		})
 	}
+	if !r.factoryOK {
+		fail("factory:wrong-ruleset", "rules.New did not return the ruleset registered under the name "+c04Names[rs]+"hotstuff", 0)
+	} else if want := [3]int{3, 2, 3}[rs]; r.chainLen != want {
+		fail("factory:chain-length", fmt.Sprintf("ChainLength() = %d, the published rule commits on a %d-chain", r.chainLen, want), 0)
+	} else {
+		v.Oracle(true, "", "", nil)
+	}
 	peers := map[int]bool{}
 	usesNet := false
 	for _, e := range run.evs {
@@ -439,6 +474,17 @@ func c04Execute(v *verifOut, s *verifStream, run c04Run, rs int) {
 			}
 			terms = append(terms, "N "+gList(bs))
 			trace = append(trace, map[string]any{"event": "peers now have", "blocks": names})
+		case 'L':
+			lh := r.lock()
+			terms = append(terms, fmt.Sprintf("L %d", in.id(lh)))
+			trace = append(trace, map[string]any{"event": "lock is", "block": f.describe(idxOf[lh])["block"]})
+			if rs != 1 && guard {
+				if idxOf[lh] != ref.lock {
+					fail("lock:differs", fmt.Sprintf("lock is %v, published rule locks %v", f.describe(idxOf[lh])["block"], f.describe(ref.lock)["block"]), step)
+				} else {
+					v.Oracle(true, "", "", nil)
+				}
+			}
 		case 'Q':
 			var hs []string
 			var names []any
@@ -471,7 +517,15 @@ func c04Execute(v *verifOut, s *verifStream, run c04Run, rs int) {
 					evGuard = false
 				}
 			}
+			lockPre := r.lock()
 			got, pan := r.vote(e.view, p)
+			if pan == nil {
+				if r.lock() != lockPre {
+					fail("vote:moved-lock", fmt.Sprintf("VoteRule moved the lock from %v to %v", f.describe(idxOf[lockPre])["block"], f.describe(idxOf[r.lock()])["block"]), step)
+				} else {
+					v.Oracle(true, "", "", nil)
+				}
+			}
 			trace = append(trace, map[string]any{"event": "VoteRule", "view_arg": e.view, "block": f.describe(e.blk), "aggqc": e.agg, "aggqc_view": aggView, "returned": got, "panic": fmt.Sprint(pan)})
 			terms = append(terms, fmt.Sprintf("V %d %s %s %s", e.view, in.block(blk.b), aggTerm, gBool(got)))
 			if pan != nil {
@@ -816,7 +870,13 @@ func c04Fork(v *verifOut, s *verifStream) {
 								// the proposal is also judged with an AggQC and in a later view
 								evs = append(evs, c04Ev{kind: 'V', blk: p, view: pv, agg: 1}, c04Ev{kind: 'V', blk: p, view: pv + 1},
 									c04Ev{kind: 'V', blk: p, view: pv, agg: 1, aggOff: -1}, c04Ev{kind: 'V', blk: p, view: pv, agg: 1, aggOff: 1})
-								c04ExecuteAll(v, s, c04Run{stream: "fork", forest: f, evs: evs})
+								run := c04Run{stream: "fork", forest: f, evs: evs}
+								c04ExecuteAll(v, s, run)
+								if m <= 3 && gapAt <= 1 {
+									for _, off := range c04BigOffsets {
+										c04ExecuteAll(v, s, c04Shift(run, off))
+									}
+								}
 							}
 						}
 					}
@@ -839,8 +899,8 @@ func c04LockTarget(v *verifOut, s *verifStream) {
 		}
 		for code := 0; code < total; code++ {
 			for variant := 0; variant < 4; variant++ {
-				pOnPrev := variant&1 == 1  // P certifies B(m-1) instead of Bm
-				tipZero := variant&2 == 2  // Bm carries the zero-hash certificate
+				pOnPrev := variant&1 == 1 // P certifies B(m-1) instead of Bm
+				tipZero := variant&2 == 2 // Bm carries the zero-hash certificate
 				f := c04NewForest()
 				for i := 1; i <= m; i++ {
 					qc := i - 1
@@ -878,6 +938,109 @@ func c04LockTarget(v *verifOut, s *verifStream) {
 		}
 	}
 }
+
+// stream "depth": fetch failures per depth with the lock consulted afterwards.  A chain B1..B5
+// (optionally with a view gap at one position, so that some link is not direct) and fork proposals
+// X0..X3 on genesis, B1, B2, B3.  Any subset of {B4, B3, B2} = the blocks at depth 1, 2, 3 below B5 is
+// unavailable when B5 is processed -- permanently, or transiently (a peer supplies it afterwards and
+// B5 is processed again).  The other blocks were processed in order or arrived by fetch.  After each
+// processing of B5 the lock is read and every fork proposal is judged (the lock is read again after each
+// vote decision): a lock that silently stayed behind, or did not heal on the retry, changes a decision.
+func c04Depth(v *verifOut, s *verifStream) {
+	for _, pdev := range []int{0, 3, 4, 5} { // block whose parent is two back (its QC still certifies its predecessor)
+		for gap := 0; gap <= 5; gap++ {
+			for miss := 0; miss < 8; miss++ {
+				for mode := 0; mode < 2; mode++ { // 0: the others arrived by fetch (S), 1: processed in order (C)
+					for kind := 0; kind < 2; kind++ { // 0: permanent, 1: transient + retry
+						if miss == 0 && kind == 1 {
+							continue
+						}
+						f := c04NewForest()
+						for i := 1; i <= 5; i++ {
+							view := f.viewOf(i-1) + 1
+							if i == gap {
+								view++
+							}
+							parent := i - 1
+							if i == pdev {
+								parent = i - 2
+							}
+							f.add(parent, i-1, view, f.viewOf(i-1))
+						}
+						var xs []int
+						for k := 0; k <= 3; k++ {
+							xs = append(xs, f.add(k, k, f.viewOf(5)+1, f.viewOf(k)))
+						}
+						missing := map[int]bool{}
+						var missList []int
+						for d := 1; d <= 3; d++ {
+							if miss&(1<<(d-1)) != 0 {
+								missing[5-d] = true
+								missList = append(missList, 5-d)
+							}
+						}
+						var evs []c04Ev
+						evs = append(evs, c04Ev{kind: 'N'})
+						for i := 1; i <= 4; i++ {
+							if missing[i] {
+								continue
+							}
+							if mode == 0 {
+								evs = append(evs, c04Ev{kind: 'S', blk: i})
+							} else {
+								evs = append(evs, c04Ev{kind: 'V', blk: i, view: f.viewOf(i)}, c04Ev{kind: 'C', blk: i}, c04Ev{kind: 'L'})
+							}
+						}
+						judge := func() {
+							for _, x := range xs {
+								evs = append(evs, c04Ev{kind: 'V', blk: x, view: f.viewOf(x)}, c04Ev{kind: 'L'})
+							}
+						}
+						evs = append(evs, c04Ev{kind: 'V', blk: 5, view: f.viewOf(5)}, c04Ev{kind: 'L'}, c04Ev{kind: 'C', blk: 5}, c04Ev{kind: 'L'})
+						judge()
+						if kind == 1 {
+							// the peers now have the missing blocks: the same block is processed again
+							evs = append(evs, c04Ev{kind: 'N', net: missList}, c04Ev{kind: 'V', blk: 5, view: f.viewOf(5)}, c04Ev{kind: 'L'},
+								c04Ev{kind: 'C', blk: 5}, c04Ev{kind: 'L'}, c04Ev{kind: 'Q'}, c04Ev{kind: 'N'})
+							judge()
+						}
+						run := c04Run{stream: "depth", forest: f, evs: evs}
+						c04ExecuteAll(v, s, run)
+						if pdev == 0 && (gap == 0 || gap == 4) {
+							for _, off := range c04BigOffsets[1:] {
+								c04ExecuteAll(v, s, c04Shift(run, off))
+							}
+						}
+					}
+				}
+			}
+		}
+	}
+}
+
+// c04Shift rebuilds a run with every view (and every certificate label of a non-genesis block) moved up
+// by off: the same shapes around 2^31, 2^32 and 2^63, where a narrowing or signed comparison differs.
+func c04Shift(run c04Run, off uint64) c04Run {
+	g := c04NewForest()
+	for i := 1; i < len(run.forest.blocks); i++ {
+		b := run.forest.blocks[i]
+		qv := b.qcView
+		if b.qc > c04Gen {
+			qv += off
+		}
+		g.add(b.parent, b.qc, b.view+off, qv)
+	}
+	evs := make([]c04Ev, len(run.evs))
+	for i, e := range run.evs {
+		if e.kind == 'V' && e.blk != c04Gen {
+			e.view += off
+		}
+		evs[i] = e
+	}
+	return c04Run{stream: run.stream + "-bigviews", forest: g, evs: evs}
+}
+
+var c04BigOffsets = []uint64{1<<31 - 3, 1<<32 - 3, 1<<63 - 3}
 
 // stream "random": forests of 4..14 blocks, mostly chain-like with forks, gaps, equal views,
 // certificates off the parent, relabelled certificates, zero hashes; orders from creation order to
@@ -1007,6 +1170,9 @@ func c04RandomEvents(v *verifOut, f *c04Forest) []c04Ev {
 			aggOff = -int64(rng.Intn(4))
 		}
 		evs = append(evs, c04Ev{kind: 'V', blk: i, view: view, agg: agg, aggOff: aggOff})
+		if rng.Intn(5) == 0 {
+			evs = append(evs, c04Ev{kind: 'L'})
+		}
 		if x < 16 { // judged but not accepted
 			continue
 		}
@@ -1085,6 +1251,7 @@ func TestVerifC04(t *testing.T) {
 	c04Chain(v, s)
 	c04Fork(v, s)
 	c04LockTarget(v, s)
+	c04Depth(v, s)
 	c04Random(v, s)
 	c04Boundary(v, s)
 }
